@@ -53,8 +53,8 @@ def run(tier, rep):
     if tier == 'quick':
         layers, phases, deadline = 'A,B1', 1, 240
     else:
-        layers, phases, deadline = 'A,B2,C', 2, 1500
-    res, d = dxlib.run_dx('plain', cfg, 'c01', layers, 'ref', phases=phases, deadline=deadline)
+        layers, phases, deadline = 'A,B2,C', 3, 1500
+    res, d = dxlib.run_dx('plain', cfg, 'c01', layers, 'ref', phases=phases, deadline=deadline, extra=[] if tier == 'quick' else ['--c-cap', '3000000'])
     known = [r for r in res if r.get('ref_available')]
     if len(known) < 61:
         raise SystemExit('HARNESS-ERROR: the reference model accepts only %d background names (61 expected)' % len(known))
